@@ -14,7 +14,7 @@ pub fn signs(k: usize) -> [i8; 6] {
 }
 
 /// geometry classes named in C01's quantifier
-pub const GEOMETRY_CLASSES: [&str; 7] = ["plain", "b-nonzero", "a2-positive", "a2-negative", "a1-negative", "a1-zero", "offsets-only"];
+pub const GEOMETRY_CLASSES: [&str; 9] = ["plain", "b-nonzero", "a2-positive", "a2-negative", "a1-negative", "a1-zero", "offsets-only", "c4-zero", "c1-zero"];
 
 pub fn geometry(class: &str, r: &mut StdRng) -> Parameters {
     let l = |r: &mut StdRng, lo: f64, hi: f64| r.gen_range(lo..hi);
@@ -25,6 +25,8 @@ pub fn geometry(class: &str, r: &mut StdRng) -> Parameters {
         "a2-negative" => p.a2 = -l(r, 0.02, 0.2),
         "a1-negative" => { p.a1 = -l(r, 0.05, 0.3); p.a2 = -l(r, 0.0, 0.1); }
         "a1-zero" => { p.a1 = 0.0; p.a2 = l(r, -0.1, 0.1); }
+        "c4-zero" => { p.c4 = 0.0; p.a2 = l(r, -0.1, 0.1); if r.gen_bool(0.5) { p.b = l(r, -0.1, 0.1); } }
+        "c1-zero" => { p.c1 = 0.0; p.b = l(r, -0.15, 0.15); }
         _ => {}
     }
     p
